@@ -126,6 +126,11 @@ type Gen struct {
 	// four, so that the parties / tasks of one plan run related inputs through the same code paths
 	themeURLs []string
 	themeRefs []string
+	// themeNames: parameter names / values come from a per-plan pool of three most of the time
+	// (duplicates, "value already there", same name on several handles)
+	themeNames bool
+	poolNames  []string
+	poolVals   []string
 }
 
 // setTheme draws the per-plan pools.
@@ -441,8 +446,25 @@ func (g *Gen) validFor(w int) string {
 	}
 }
 
-func (g *Gen) Name() string  { return g.maybeMutSmall(g.pick(gNames)) }
-func (g *Gen) Value() string { return g.maybeMutSmall(g.pick(gVals)) }
+func (g *Gen) Name() string {
+	if g.themeNames && g.r.Chance(2, 3) {
+		if len(g.poolNames) < 3 {
+			g.poolNames = append(g.poolNames, g.maybeMutSmall(g.pick(gNames)))
+		}
+		return g.pick(g.poolNames)
+	}
+	return g.maybeMutSmall(g.pick(gNames))
+}
+
+func (g *Gen) Value() string {
+	if g.themeNames && g.r.Chance(1, 2) {
+		if len(g.poolVals) < 3 {
+			g.poolVals = append(g.poolVals, g.maybeMutSmall(g.pick(gVals)))
+		}
+		return g.pick(g.poolVals)
+	}
+	return g.maybeMutSmall(g.pick(gVals))
+}
 
 func (g *Gen) maybeMutSmall(s string) string {
 	if g.r.Intn(100) < g.hostile/2 {
@@ -457,6 +479,9 @@ func (g *Gen) Query() string {
 		return strings.TrimPrefix(g.pick(gQueries), "?")
 	}
 	n := g.r.Range(0, 5)
+	if g.r.Chance(1, 12) {
+		n = g.r.Range(9, 20) // beyond insertion-sort thresholds and slice growth boundaries
+	}
 	var parts []string
 	for i := 0; i < n; i++ {
 		p := g.encodeish(g.pick(gNames))
